@@ -1904,7 +1904,6 @@ where
         out: &mut Vec<Option<LazyValue<'de>>>,
         remain: &mut usize,
     ) -> Result<()> {
-        debug_assert!(strbuf.is_empty());
         match self.skip_space() {
             Some(b'{') => {}
             Some(peek) => return Err(self.peek_invalid_type(peek, &"a JSON object")),
@@ -1958,7 +1957,6 @@ where
         out: &mut Vec<Option<LazyValue<'de>>>,
         remain: &mut usize,
     ) -> Result<()> {
-        debug_assert!(strbuf.is_empty());
         match self.skip_space() {
             Some(b'{') => {}
             Some(peek) => return Err(self.peek_invalid_type(peek, &"a JSON object")),
